@@ -71,6 +71,8 @@ def _mflag(y, fn=None):
 
 
 def run(ck, m):
+    from rules.common import rule_memo_safety
+    rule_memo_safety(ck, m, "MEMO", "C03")          # first: a memoised helper also hides the code it wraps from the rules below
     rule_chunk_protocol(ck, m, "R1")
 
     # ---- R2 ----------------------------------------------------------------------------
@@ -341,8 +343,16 @@ def run(ck, m):
     from rules.c02 import rule_pixel_pipeline
     rule_pixel_pipeline(ck, m, "R2")
 
-    from rules.common import rule_memo_safety
-    rule_memo_safety(ck, m, "MEMO", "C03")
+    from tiv.sem import econds as _ec
+    saves = [c for c in body_walk(ir) if isinstance(c, ast.Call) and isinstance(c.func, ast.Attribute) and c.func.attr == "save" and c.args and norm(c.args[0]) == "compressed_image"
+             and not any(isinstance(a_, ast.For) for a_ in _anc(c)) and not any(k.arg == "save_all" for k in c.keywords)]
+    ck.expect(len(saves) >= 1, "iterm2 renderer: the whole-image `img.save(compressed_image, ...)` not found")
+    for c in saves:
+        cds = _ec(ir, c)
+        lines_neg = any(x.startswith("not ") and x.endswith("== LINES") for x in cds)
+        other_method = [x for x in cds if ("== WHOLE" in x or "== ANIM" in x) and not x.startswith("not ")]
+        ck.ob("R4", enclosing_stmt(c), lines_neg and not other_method, f"the image is encoded into the buffer whose length is advertised under {sorted(cds)[:4]}: it must be for every method but LINES "
+              "(ANIM falls back to the WHOLE output for a still image or a single frame; an un-encoded buffer gives size=0 and an empty payload)", stmt="iterm2: whole image encoded iff not LINES")
 
 
 def rule_chunk_protocol(ck, m, rid):
